@@ -58,7 +58,9 @@ def hs(spectrum, freq, dir=None, tail=True):
     """
     df = abs(freq[1:] - freq[:-1])
     if dir is not None and len(dir) > 1:
-        ddir = abs(dir[1] - dir[0])
+        # Bin width on the circle (the stored sequence may wrap between its first two labels)
+        ddir = abs(dir[1] - dir[0]) % 360
+        ddir = min(ddir, 360 - ddir)
         E = ddir * spectrum.sum(1)
     else:
         E = np.atleast_1d(np.squeeze(spectrum))
